@@ -1,5 +1,8 @@
 (* cpsdrv.ml — correspondence for the CodePointSet operation stream (S7) and the fold/unfold sweep. *)
 open Model
+module String = Stdlib.String
+module List = Stdlib.List
+type string = Stdlib.String.t
 open Conv
 
 let split s = List.filter (fun x -> x <> "") (String.split_on_char ' ' s)
@@ -90,3 +93,56 @@ let run_fold () =
     | _ -> failwith ("bad line: " ^ line)
   done with End_of_file -> ());
   Printf.printf "SUMMARY cases=%d runs=%d mismatches=%d nontrivial=%d propviol=0\n" !n !n !mism !nontrivial
+
+(* ---- property lookup stream (C11) ---- *)
+(* OCaml string -> the extracted Coq string (EmptyString | String of ascii * string, ascii = 8 booleans) *)
+let coq_string (s : string) : Model.string =
+  let n = String.length s in
+  let rec go i = if i >= n then Model.EmptyString else
+    let c = Char.code s.[i] in
+    let b k = (c lsr k) land 1 = 1 in
+    Model.String (Model.Ascii (b 0, b 1, b 2, b 3, b 4, b 5, b 6, b 7), go (i + 1)) in
+  go 0
+let unhexs s = if s = "-" then "" else String.init (String.length s / 2) (fun i -> Char.chr (int_of_string ("0x" ^ String.sub s (2 * i) 2)))
+
+let run_props () =
+  let n = ref 0 and mism = ref 0 and pviol = ref 0 and nontrivial = ref 0 in
+  let assoc k l = (let ck = coq_string k in let rec go l = (match l with [] -> None | (a, b) :: t -> if a = ck then Some b else go t) in go l) in
+  (try while true do
+    let line = input_line stdin in
+    match split line with
+    | "L" :: nm :: vl :: us :: res ->
+      incr n;
+      let name = unhexs nm and value = unhexs vl in
+      let impl = (match res with
+        | ["N"] -> `None
+        | "C" :: k :: t -> `Class (pairs (fst (take (2 * ios k) t)))
+        | "S" :: k :: t ->
+          let rec go k t = if k = 0 then [] else (match t with len :: t' -> let (a, r) = take (ios len) t' in List.map nn a :: go (k - 1) r | [] -> failwith "S") in
+          `Strs (go (ios k) t)
+        | _ -> failwith "L") in
+      let model = (match property_lookup (if name = "-" || name = "" then None else Some (coq_string name)) (coq_string value) (us = "1") with
+        | None -> `None | Some (PRClass t) -> `Class t | Some (PRStrings l) -> `Strs l) in
+      let norm x = (match x with `Strs l -> `Strs (List.sort compare l) | y -> y) in
+      if norm impl <> norm model then begin incr mism; Printf.printf "MISMATCH stage=S1-props name=%s value=%s us=%s\n" name value us end;
+      (* C11: against the reference data *)
+      let expected = (match name with
+        | "-" | "" ->
+          (match assoc value ref_binary with
+           | Some t -> `Class t
+           | None ->
+             (match (if us = "1" then assoc value ref_strings else None) with
+              | Some l -> `Strs l
+              | None -> (match assoc value ref_gc with Some t -> `Class t | None -> `None)))
+        | "gc" | "General_Category" -> (match assoc value ref_gc_named with Some t -> `Class t | None -> `None)
+        | "sc" | "Script" -> (match assoc value ref_sc with Some t -> `Class t | None -> `None)
+        | "scx" | "Script_Extensions" -> (match assoc value ref_scx with Some t -> `Class t | None -> `None)
+        | _ -> `None) in
+      if impl <> `None then incr nontrivial;
+      if norm impl <> norm expected then begin
+        incr pviol;
+        Printf.printf "PROPVIOL prop=C11 case=%s=%s pat=- flags=%s hay=- start=0 detail=lookup(%s,%s)-differs-from-Unicode-17-reference\n" name value us name value end
+    | [] -> ()
+    | _ -> failwith ("bad line: " ^ line)
+  done with End_of_file -> ());
+  Printf.printf "SUMMARY cases=%d runs=%d mismatches=%d nontrivial=%d propviol=%d\n" !n !n !mism !nontrivial !pviol
